@@ -179,7 +179,7 @@ def run_batches(profile, seed, total, thorough, jobs, digests=False, wall_cap=No
     return viol, stats, samples, len(distinct), len(orders), dig
 
 
-def replay_once(profile, ops, faults, layouts, noise=False, timeout=60, ops_a=None, tail=None, log_trace=False, build="checked", reuse=False):
+def replay_once(profile, ops, faults, layouts, noise=False, timeout=60, ops_a=None, tail=None, log_trace=False, build="checked", reuse=False, shallow=False):
     exe = {"relnd": BIN2, "relnd-nostd": BIN3}.get(build, BIN)
     cmd = [exe if os.path.exists(exe) else BIN, "replay", "--profile", profile, "--layouts", ",".join(str(x) for x in layouts), "--faults", faults, "--ops", ";".join(ops)]
     if noise:
@@ -188,6 +188,8 @@ def replay_once(profile, ops, faults, layouts, noise=False, timeout=60, ops_a=No
         cmd.append("--log-trace")
     if reuse:
         cmd.append("--addr-reuse")
+    if shallow:
+        cmd.append("--shallow-clone")
     if ops_a is not None:
         cmd += ["--ops-a", ";".join(ops_a), "--tail", str(tail)]
     try:
@@ -228,14 +230,34 @@ def minimise(prop, v, budget_s=120):
     lt = bool(v.get("log_trace", 0))
     bd = v.get("build", "checked")
     ru = bool(v.get("addr_reuse", 0))
+    sc = bool(v.get("shallow_clone", 0))
 
     def fails(o, f, l):
         if time.time() - t0 > budget_s:
             return False
-        return same_failure(replay_once(profile, o, f, l, noise, log_trace=lt, build=bd, reuse=ru), prop, kind, cause)
+        return same_failure(replay_once(profile, o, f, l, noise, log_trace=lt, build=bd, reuse=ru, shallow=sc), prop, kind, cause)
 
     if not fails(ops, faults, layouts):
         return None
+    if ops and ops[0].startswith("Raw "):
+        # drop-glue-free payload case: "Raw k;E a>b ...;X extra...;O order..." - shrink edges and releases
+        parts = {o.split()[0]: o.split()[1:] for o in ops}
+        def build(pp):
+            return ["Raw " + " ".join(pp["Raw"]), "E " + " ".join(pp.get("E", [])), "X " + " ".join(pp.get("X", [])), "O " + " ".join(pp.get("O", []))]
+        for key in ("E", "O"):
+            i = 0
+            while i < len(parts.get(key, [])):
+                cand = dict(parts)
+                cand[key] = parts[key][:i] + parts[key][i + 1:]
+                if fails(build(cand), faults, layouts):
+                    parts = cand
+                else:
+                    i += 1
+        ops = build(parts)
+        final = replay_once(profile, ops, faults, layouts, noise, log_trace=lt, build=bd, reuse=ru, shallow=sc)
+        if not same_failure(final, prop, kind, cause):
+            return None
+        return {"ops": ops, "faults": faults, "layouts": layouts, "noise": noise, "final": final}
     # 1. cut the tail after the failing call
     step = v.get("step", len(ops) - 1)
     # `step` counts top-level calls; inline destructor-side calls (`@k ...`) are interleaved
@@ -314,7 +336,7 @@ def minimise(prop, v, budget_s=120):
             ops = cand
         else:
             i += 1
-    final = replay_once(profile, ops, faults, layouts, noise, log_trace=lt, build=bd, reuse=ru)
+    final = replay_once(profile, ops, faults, layouts, noise, log_trace=lt, build=bd, reuse=ru, shallow=sc)
     if not same_failure(final, prop, kind, cause):
         return None
     return {"ops": ops, "faults": faults, "layouts": layouts, "noise": noise, "final": final}
@@ -332,7 +354,7 @@ def write_replay(prop, v, mini):
         "property": prop, "profile": v["profile"], "engine": "sim", "kind": v["kind"], "cause": v["cause"],
         "seed": v["seed"], "run": v["run"], "exec": v.get("exec", 0), "layouts": layouts, "layout_noise": noise,
         "calls": ops, "faults": faults, "minimised": bool(mini), "original_calls": len(parse_ops(v["ops"])),
-        "calls_a": parse_ops(v["ops_a"]) if v.get("ops_a") else None, "tail": v.get("tail"), "log_trace": bool(v.get("log_trace", 0)), "build": v.get("build", "checked"), "addr_reuse": bool(v.get("addr_reuse", 0)),
+        "calls_a": parse_ops(v["ops_a"]) if v.get("ops_a") else None, "tail": v.get("tail"), "log_trace": bool(v.get("log_trace", 0)), "build": v.get("build", "checked"), "addr_reuse": bool(v.get("addr_reuse", 0)), "shallow_clone": bool(v.get("shallow_clone", 0)),
         "expect": {"kind": final.get("kind"), "cause": final.get("cause"), "msg": final.get("msg"), "props": final.get("props")},
     }
     with open(path, "w") as f:
@@ -347,7 +369,7 @@ def do_replay_file(path, quiet=False):
     if eng != "sim":
         import engines
         return engines.replay(rec, path, quiet)
-    j = replay_once(rec["profile"], rec["calls"], rec.get("faults", ""), rec["layouts"], rec.get("layout_noise", False), ops_a=rec.get("calls_a"), tail=rec.get("tail"), log_trace=rec.get("log_trace", False), build=rec.get("build", "checked"), reuse=rec.get("addr_reuse", False))
+    j = replay_once(rec["profile"], rec["calls"], rec.get("faults", ""), rec["layouts"], rec.get("layout_noise", False), ops_a=rec.get("calls_a"), tail=rec.get("tail"), log_trace=rec.get("log_trace", False), build=rec.get("build", "checked"), reuse=rec.get("addr_reuse", False), shallow=rec.get("shallow_clone", False))
     prop = rec["property"]
     if j.get("type") == "violation" and prop in j.get("props", []):
         if not quiet:
@@ -447,6 +469,12 @@ def check_sim(prop, tier, seed, jobs):
     total = RUNS[tier][prop]
     scale = float(os.environ.get("VERIF_SCALE", "1"))
     total = max(16, int(total * scale))
+    soak_proc = None
+    if prop == "C03":
+        # one long-lived process: witness rings across 2^8 .. 2^24 (thorough: 2^32) traces
+        soak_proc = subprocess.Popen([BIN2, "soak", "--max-pow", "32" if thorough and scale >= 1 else "24"], stdout=subprocess.PIPE, stderr=subprocess.DEVNULL)
+        import atexit
+        atexit.register(lambda: soak_proc.poll() is None and soak_proc.kill())
     viol, stats, samples, ndist, norders, _ = run_batches(prop, seed, total, thorough, jobs)
     known = load_findings()
     mine = [v for v in viol if prop in v.get("props", [])]
@@ -530,6 +558,43 @@ def check_sim(prop, tier, seed, jobs):
             path = os.path.join(REPLAYS, f"C03-{j['shape']}-{j['n']}.json")
             with open(path, "w") as f:
                 json.dump({"property": "C03", "engine": "scale", "kind": kind, "cause": cause, "shape": j["shape"], "n": j["n"], "stack_kb": j.get("stack_kb", 128), "chords": j.get("chords", 0), "selfsame_every": j.get("selfsame_every", 0), "seed": j.get("seed", seed), "expect": {"kind": kind, "cause": cause, "msg": msg}}, f, indent=1)
+            write_evidence(prop, tier, seed, LEVEL.get(prop, "exploration"), coverage, time.time() - t0, 1)
+            print(f"violation kind={kind} cause={cause} msg={msg}")
+            print(f"VIOLATION property={prop} replay={path}")
+            return 1
+    if soak_proc is not None:
+        try:
+            so, _ = soak_proc.communicate(timeout=3 * 3600)
+        except subprocess.TimeoutExpired:
+            soak_proc.kill()
+            so = b""
+        sj = next((json.loads(l) for l in so.decode(errors="replace").splitlines() if l.startswith("{")), None)
+        if sj is None:
+            eprint(f"HARNESS-ERROR C03: the soak process produced no result (code {soak_proc.returncode})")
+            return 2
+        coverage["soak"] = {"traces_in_one_process": sj["traces"], "witness_rings": sj["witnesses"], "wall_ms": sj["wall_ms"], "note": "witness rings traced once, left untouched for 2^p + d further traces (p in 8,16,24[,32]; d in -3..3), then their last outside handle is released: must be destroyed in full"}
+        if sj["failures"] and not unlisted:
+            f0 = sj["failures"][0]
+            os.makedirs(REPLAYS, exist_ok=True)
+            path = os.path.join(REPLAYS, f"C03-soak-pow{f0['pow']}.json")
+            msg = f"a fully recorded 2-ring last traced 2^{f0['pow']}{f0['off']:+d} traces earlier: {f0['what']} ({len(sj['failures'])} of {sj['witnesses']} witnesses failed)"
+            with open(path, "w") as f:
+                json.dump({"property": "C03", "engine": "soak", "kind": "not-collected", "cause": "long-lived-object-across-many-traces", "max_pow": f0["pow"], "expect": {"msg": msg, "failures": sj["failures"]}}, f, indent=1)
+            write_evidence(prop, tier, seed, LEVEL.get(prop, "exploration"), coverage, time.time() - t0, 1)
+            print(f"violation kind=not-collected cause=long-lived-object-across-many-traces msg={msg}")
+            print(f"VIOLATION property={prop} replay={path}")
+            return 1
+    if prop == "C16" and not unlisted:
+        import engines
+        nbig, fail = engines.big_dead(tier, seed, jobs)
+        coverage["big_group_dead_handle_scenarios"] = nbig
+        coverage["big_group_dead_handle_note"] = "orphaned groups of 1100 to 5000 (thorough: 70000) members (ring with chords, mutual star, ring of cliques), each in a child process; from a chosen destructor on, every destructor clones (process must abort) or drops (must be a no-op, everything destroyed exactly once) its stored handles to dying members"
+        if fail:
+            (shape, n, chords, act, at), (kind, cause, msg) = fail
+            os.makedirs(REPLAYS, exist_ok=True)
+            path = os.path.join(REPLAYS, f"C16-bigdead-{shape}-{n}-{act}-{at}.json")
+            with open(path, "w") as f:
+                json.dump({"property": "C16", "engine": "bigdead", "kind": kind, "cause": cause, "shape": shape, "n": n, "chords": chords, "act": act, "at": at, "seed": seed, "expect": {"kind": kind, "cause": cause, "msg": msg}}, f, indent=1)
             write_evidence(prop, tier, seed, LEVEL.get(prop, "exploration"), coverage, time.time() - t0, 1)
             print(f"violation kind={kind} cause={cause} msg={msg}")
             print(f"VIOLATION property={prop} replay={path}")
